@@ -14,15 +14,22 @@ Two ties to the code, both run on /repo in-process:
             millisecond selects the document, one denoting another millisecond does not;
     READ    every read path x tz_aware False/True: naive, resp. aware-UTC at every depth, same
             instants as stored.
-    AGG     (follows the repair d1da933) a datetime written in an aggregation pipeline, at every
-            position where a value can be written x generated nesting x tz_aware: it comes out in
-            the form the collection's own documents are read in, `$out` stores it like an insert,
-            an equivalent way of writing it gives the same aggregation; a stored field compared
-            with a written datetime (every comparison operator, both operand orders, `$match`,
-            `$in`, `$subtract`, `$bucket` boundaries, `$lookup` …) answers by milliseconds under
-            both settings.  Tied to the model: the pipeline `process_pipeline` is handed
-            ~ Lean `aggPipeline`, the six comparisons ~ Lean `Expr.compareOp` on `readDoc` /
-            `aggPipeline` (theorems `literal_form`, `compare_field_with_literal`, …).
+    AGG     (follows the repairs d1da933, e05c961, 8825a6b) every case under tz_aware False and
+            True: a datetime written in an aggregation pipeline, at every position where a value
+            can be written x generated nesting, comes out in the form the collection's own
+            documents are read in, `$out` stores it like an insert, an equivalent way of writing it
+            gives the same aggregation; a stored field compared with a written datetime (every
+            comparison operator, both operand orders, `$match`, `$in`, `$subtract`, `$bucket`
+            boundaries, `$lookup` …) answers by milliseconds; a datetime the pipeline computes
+            (`$dateFromParts` with millisecond carry, `$add` / `$subtract` of a date) compares
+            with stored and written ones by its instant, can be grouped by, joined on, stored, and
+            reaches the caller in the read form at every depth; the tz_aware=True client gets
+            exactly the results of the other one made aware UTC.  Tied to the model: the pipeline
+            `process_pipeline` is handed ~ Lean `aggPipeline`, its input = the documents as
+            stored (`aggInput`), what becomes of its results ~ Lean `aggResult`, the six
+            comparisons ~ Lean `Expr.compareOp` (theorems `pipeline_literals_normal`,
+            `result_form`, `aggregate_tz_only_rebuilds_results`, `compare_field_with_literal`,
+            `compare_field_with_computed_ms`, …).
     Deviations are classified; classes listed in known_findings.json are reported as KNOWN,
     anything else is a VIOLATION with a replayable case.
 (c) the witnesses of the repaired findings (status "fixed" in known_findings.json) are run on every
@@ -63,12 +70,15 @@ ASSUMPTIONS = [
     'until then the write paths are covered by the direct check (b) only',
     'bulk_write is not exercised (it forwards to the same _insert / _update)',
     'pipelines: datetimes *written* in the pipeline are covered at every position (aggPipeline); '
-    'datetimes *computed* by an expression are exercised for $dateFromParts only (known finding '
-    'aggregate_computed_raw); the values of the other date-producing operators ($add with a date, '
-    '$dateFromString, $toDate) are C04\'s matter; $lookup sub-pipelines (`pipeline`, `let`) are '
-    'not implemented in the library (C20)',
+    'datetimes *computed* by the pipeline are exercised through $dateFromParts (millisecond carry '
+    'included) and $add / $subtract of a date and a whole number of milliseconds: compared with '
+    'stored and written ones, grouped by, joined on, stored by $out; what value another '
+    'date-producing operator computes ($dateFromString, $toDate, $add of a fractional number) is '
+    'C04\'s matter — whatever it is, aggResult makes it aware UTC for a tz_aware client '
+    '(reads_aware_results); $lookup sub-pipelines (`pipeline`, `let`) are not implemented in the '
+    'library (C20)',
 ]
-KNOWN_CLASSES = ('aggregate_computed_raw',)
+KNOWN_CLASSES = ()
 
 
 # ================================================================================================
@@ -1173,19 +1183,20 @@ def run_read(ctx, judge, case):
 
 
 # ================================================================================================
-# (b4) a datetime written in an aggregation pipeline
+# (b4) aggregation pipelines: datetimes written in them, read by them, computed by them
 # ================================================================================================
 VALUE_BY_NAME = {n: (sh, b) for n, sh, b in g.VALUE_POSITIONS}
 COMPARE_BY_NAME = {n: (b, e) for n, b, e in g.COMPARE_POSITIONS}
 COMPUTED_BY_NAME = dict(g.COMPUTED_POSITIONS)
+TZS = (False, True)
 
 
-def agg_case(seed, part, name, tz):
-    """part: 'value' | 'compare' | 'computed'"""
+def agg_case(seed, part, name):
+    """part: 'value' | 'compare' | 'computed'; every case runs under both tz_aware settings"""
     r = random.Random(seed)
     dg = g.DateGen(r)
     d = dg.date()
-    case = {'kind': 'agg', 'case_seed': seed, 'part': part, 'position': name, 'tz': tz, 'dg': dg,
+    case = {'kind': 'agg', 'case_seed': seed, 'part': part, 'position': name, 'dg': dg,
             'date': d, 'far': dg.far()}
     if part == 'value':
         shape = VALUE_BY_NAME[name][0]
@@ -1199,34 +1210,42 @@ def agg_case(seed, part, name, tz):
     elif part == 'compare':
         case.update(nest=g.Nest(r, 0, dg), same=dg.equivalent(d), other=dg.other(d))
     else:
-        us = dg.instant_us()
-        us -= us % 1000
-        t = wire.EPOCH + _dt.timedelta(microseconds=us)
-        if r.random() < 0.3:
-            t = t.replace(microsecond=0)
-        case.update(nest=g.Nest(r, 0, dg), instant=t,
-                    parts=(t.year, t.month, t.day, t.hour, t.minute, t.second,
-                           t.microsecond // 1000))
+        # an instant of whole milliseconds, written as parts; the millisecond part sometimes
+        # outside 0..999 (it carries over, 8825a6b); mostly next to the stored datetime
+        x = r.random()
+        ms = g.ms_of(d) + r.choice([0, 0, 1, -1, 1000, -86400000]) if x < 0.5 \
+            else dg.instant_us() // 1000
+        carry = r.choice([0, 0, 0, 1, 2, -1, 5]) * 1000 if r.random() < 0.4 else 0
+        base = g.from_ms(ms - carry)
+        parts = collections.OrderedDict([
+            ('year', base.year), ('month', base.month), ('day', base.day), ('hour', base.hour),
+            ('minute', base.minute), ('second', base.second),
+            ('millisecond', base.microsecond // 1000 + carry)])
+        if parts['millisecond'] == 0 and r.random() < 0.5:
+            del parts['millisecond']
+        case.update(nest=g.Nest(r, 0, dg), t=g.from_ms(ms), parts=dict(parts),
+                    n=r.choice([0, 1, -1, 999, 1000, 86400000, -3600000, r.randrange(-10**9, 10**9)]),
+                    X=dg.date())
     return case
 
 
 def render_agg(case, **more):
     rep = {'kind': 'agg', 'case_seed': case['case_seed'], 'part': case['part'],
-           'position': case['position'], 'tz_aware': case['tz'],
-           'stored_datetime': pretty(case['date'])}
+           'position': case['position'], 'stored_datetime': pretty(case['date'])}
     if case['part'] == 'value':
         rep.update(written_value=pretty(case['L']), second_written_value=pretty(case['L2']),
                    nesting=case['nest'].signature())
     elif case['part'] == 'compare':
         rep.update(same_millisecond=pretty(case['same']), another_millisecond=pretty(case['other']))
     else:
-        rep.update(parts=list(case['parts']))
+        rep.update(parts=case['parts'], computed_instant=pretty(case['t']), n=case['n'],
+                   written_datetime=pretty(case['X']))
     rep.update(more)
     return rep
 
 
-def _agg_setup(case):
-    cl = mongomock.MongoClient(tz_aware=case['tz'])
+def _agg_setup(case, tz):
+    cl = mongomock.MongoClient(tz_aware=tz)
     d, far = case['date'], case['far']
     cl.db.c.insert_one({'_id': 1, 'k': 'x', 'f': d, 'u': [d, 1]})
     cl.db.c.insert_one({'_id': 2, 'k': 'x', 'f': far, 'u': []})
@@ -1234,20 +1253,35 @@ def _agg_setup(case):
     return cl
 
 
-def _aggregate(cl, pipeline):
-    """(result or '!Error…', the pipeline process_pipeline was handed at top level or None)"""
-    handed = []
-    real = _mm_aggregate.process_pipeline
+class Run(object):
+    """one `list(collection.aggregate(pipeline))` with what went through process_pipeline at top
+    level: the documents and the pipeline it was handed, the results it returned"""
 
-    def spy(collection, database, pl, session):
-        handed.append(pl)
-        return real(collection, database, pl, session)
-    try:
-        with mock.patch.object(_mm_aggregate, 'process_pipeline', spy):
-            res = list(cl.db.c.aggregate(pipeline))
-    except Exception as e:  # pylint: disable=broad-except
-        res = '!%s: %s' % (type(e).__name__, e)
-    return res, (handed[0] if handed else None)
+    def __init__(self, cl, pipeline):
+        self.handed = self.input = self.inner = None
+        real = _mm_aggregate.process_pipeline
+        depth = [0]
+
+        def spy(collection, database, pl, session):
+            if depth[0]:
+                return real(collection, database, pl, session)
+            depth[0] += 1
+            try:
+                self.handed = pl
+                self.input = enc(list(collection))
+                out = list(real(collection, database, pl, session))
+                self.inner = copy.deepcopy(out)
+                return _mm_aggregate.command_cursor.CommandCursor(out)
+            finally:
+                depth[0] -= 1
+        self.stored = enc(raw_docs(cl.db.c))
+        try:
+            with mock.patch.object(_mm_aggregate, 'process_pipeline', spy):
+                self.res = list(cl.db.c.aggregate(pipeline))
+            self.error = None
+        except Exception as e:  # pylint: disable=broad-except
+            self.res = None
+            self.error = '!%s: %s' % (type(e).__name__, e)
 
 
 def _snapshot(pipeline):
@@ -1255,47 +1289,74 @@ def _snapshot(pipeline):
     return enc(pipeline) + (' #tuples' if g.has_tuple(pipeline) else '')
 
 
-def _check_handed(judge, case, rep, pipeline, before, handed, model_line):
-    """the pipeline process_pipeline is handed: python-only oracle, model correspondence, and the
-    caller's pipeline object is left alone"""
-    tz = case['tz']
-    if handed is None:
+class Pending(object):
+    """correspondence checks waiting for the model's answers"""
+
+    def __init__(self):
+        self.items = []       # (driver line, python fields, rule fields, replay, what is compared)
+
+    def add(self, line, py, spec, rep, what):
+        self.items.append((line, py, spec, rep, what))
+
+    def settle(self, ctx):
+        out = wire.run_driver([it[0] for it in self.items]) if self.items else []
+        for (line, py, spec, rep, what), ans in zip(self.items, out):
+            m = [x.strip() for x in ans.split('|')]
+            if len(m) != len(py):
+                raise RuntimeError('driver answered %r to %r' % (ans, line[:200]))
+            if m != py:
+                if py == spec:
+                    ctx.notes.append('model stale but python follows the rule (%s): %s'
+                                     % (what, line[:200]))
+                else:
+                    ctx.violation(dict(rep, what='correspondence: %s' % what, py=py, impl=m,
+                                       spec=spec), rank=len(line))
+            elif m != spec:
+                raise RuntimeError('the Lean model and the Python oracle disagree where python and '
+                                   'the model agree (%s; theorem contradicted?) %r' % (what, rep))
+        self.items = []
+
+
+def _check_plumbing(judge, pending, case, rep, tz, pipeline, before, run):
+    """what process_pipeline is handed and what becomes of its results: python-only oracle and
+    model correspondence; the caller's pipeline object is left alone"""
+    if run.handed is None:
         return
-    e_py = enc(handed)
-    e_spec = enc(g.spec_read(pipeline, tz))
-    if e_py != e_spec or g.has_tuple(handed):
+    rep = dict(rep, tz_aware=tz)
+    e_py = enc(run.handed)
+    e_spec = enc(g.spec_patch(pipeline))
+    if e_py != e_spec or g.has_tuple(run.handed):
         judge.deviation(None, dict(rep, what='aggregate hands process_pipeline a pipeline whose '
-                                   'datetimes are not in the form this client reads stored ones in',
-                                   handed=e_py, rule=e_spec), rank=len(e_py))
+                                   'datetimes are not naive UTC milliseconds', handed=e_py,
+                                   rule=e_spec), rank=len(e_py))
+    if run.input != run.stored:
+        judge.deviation(None, dict(rep, what='aggregate does not run over the documents as stored',
+                                   input=run.input, stored=run.stored), rank=len(run.input))
     if _snapshot(pipeline) != before:
         judge.deviation(None, dict(rep, what='aggregate wrote to the pipeline object it was given'))
-    if model_line is not None:
-        parts = [x.strip() for x in model_line.split('|')]
-        if len(parts) != 3:
-            raise RuntimeError('driver answered %r' % model_line)
-        voc = 'T' if all(g.is_read_form(x, tz) for x in g.dates_of(pipeline)) else 'F'
-        if parts[2] != voc:
-            judge.ctx.violation(dict(rep, what='the predicate of the theorems (AllDates (ReadForm '
-                                     'tz)) disagrees with the Python oracle on the pipeline as '
-                                     'written', what_no_longer_checks='vocabulary correspondence',
-                                     py=voc, impl=parts[2]), no_input=True)
-        if parts[0] != e_py:
-            if e_py == e_spec:
-                judge.ctx.notes.append('model stale but python follows the rule (aggPipeline): '
-                                       + before[:200])
-            else:
-                judge.ctx.violation(dict(rep, what='correspondence: the pipeline handed to '
-                                         'process_pipeline differs from MongoModel.aggPipeline',
-                                         py=e_py, impl=parts[0], spec=e_spec), rank=len(e_py))
-        elif parts[0] != e_spec or parts[1] != 'T':
-            raise RuntimeError('Lean aggPipeline and the Python oracle disagree (theorem '
-                               'literal_form contradicted?) %r' % (rep,))
+    if pending is not None and tz:              # the prepared pipeline does not depend on tz
+        pending.add('aggpipe ' + before.replace(' #tuples', ''), [e_py, 'T'], [e_spec, 'T'], rep,
+                    'the pipeline handed to process_pipeline ~ MongoModel.aggPipeline')
+    if run.inner is None or run.res is None:
+        return
+    e_res = enc(run.res)
+    e_rule = enc(g.spec_aware(run.inner) if tz else run.inner)
+    if e_res != e_rule:
+        judge.deviation(None, dict(rep, what='the results of process_pipeline do not reach the caller '
+                                   'as they are (tz_aware=False), resp. aware UTC at every depth '
+                                   '(tz_aware=True)', got=e_res, rule=e_rule), rank=len(e_res))
+    if pending is not None:
+        form = 'T' if all(g.is_read_form(x, tz) for x in g.dates_of(run.res)) else 'F'
+        raw = 'T' if all(g.is_read_form(x, tz) for x in g.dates_of(run.inner)) else 'F'
+        pending.add('aggres %s %s' % ('T' if tz else 'F', enc(run.inner)), [e_res, form, raw],
+                    [e_rule, form, raw], rep,
+                    'the results handed to the caller ~ MongoModel.aggResult (and the predicate '
+                    'ReadForm ~ the oracle)')
 
 
-def _result_form_devs(case, res, pipeline, extra_ms=()):
+def _result_form_devs(case, tz, res, pipeline, extra_ms=()):
     """every datetime of a result: read form of the client, a millisecond that was stored or
-    written"""
-    tz = case['tz']
+    written (or is listed in extra_ms)"""
     allowed = {g.ms_of(case['date']), g.ms_of(case['far'])} | set(extra_ms) \
         | set(g.ms_of(x) for x in g.dates_of(pipeline))
     devs = []
@@ -1307,162 +1368,184 @@ def _result_form_devs(case, res, pipeline, extra_ms=()):
     return devs
 
 
-def agg_lines(case):
-    """the driver lines of a case (answers are handed to run_agg in the same order)"""
-    tz = 'T' if case['tz'] else 'F'
-    lines = []
-    if case['part'] == 'value':
-        pipeline, _ = VALUE_BY_NAME[case['position']][1](case['L'], case['L2'])
-        lines.append('aggpipe %s %s' % (tz, enc(pipeline)))
-    elif case['part'] == 'compare':
-        for X in (case['same'], case['other']):
-            pipeline, _ = COMPARE_BY_NAME[case['position']][0](X)
-            lines.append('aggpipe %s %s' % (tz, enc(g.subst_stored(pipeline, case['date']))))
-            lines.append('cmpdate %s %s %s' % (tz, enc(case['date']), enc(X)))
-    return lines
+def _check_both(judge, rep, runs, what):
+    """tz_aware acts on the form of the results only (theorem aggregate_tz_only_rebuilds_results)"""
+    a, b = runs[False], runs[True]
+    if (a.error is None) != (b.error is None) or (a.error and a.error != b.error):
+        judge.deviation(None, dict(rep, what='%s: one client gets an error, the other does not'
+                                   % what, tz_aware_false=a.error or 'results',
+                                   tz_aware_true=b.error or 'results'), rank=1)
+    elif a.error is None and enc(b.res) != enc(g.spec_aware(a.res)):
+        judge.deviation(None, dict(rep, what='%s: the results of the tz_aware=True client are not '
+                                   'those of the tz_aware=False client made aware UTC' % what,
+                                   tz_aware_false=pretty(a.res), tz_aware_true=pretty(b.res)),
+                        rank=len(enc(a.res)))
 
 
-def run_agg(ctx, judge, case, answers=None):
-    """answers: the driver's answers to agg_lines(case), or None (no driver)"""
-    tz = case['tz']
+def run_agg(ctx, judge, case, pending=None):
+    """pending: a Pending collecting the model correspondences, or None (no driver)"""
     name = case['position']
     nest = case['nest']
-    answers = list(answers) if answers is not None else None
-
-    def answer():
-        return answers.pop(0) if answers else None
-
     if case['part'] == 'value':
         build = VALUE_BY_NAME[name][1]
-        judge.seen('agg', '%s tz_aware=%s' % (name, tz), nest.signature(), nest.depth + 1,
-                   case['literal'], enc(case['L']))
+        judge.seen('agg', name, nest.signature(), nest.depth + 1, case['literal'], enc(case['L']))
         rep = render_agg(case)
-        pipeline, locate = build(copy.deepcopy(case['L']), copy.deepcopy(case['L2']))
-        before = _snapshot(pipeline)
-        cl = _agg_setup(case)
-        res, handed = _aggregate(cl, pipeline)
-        _check_handed(judge, case, rep, pipeline, before, handed, answer())
-        if isinstance(res, str):
-            judge.errors['agg:' + res.split(':')[0]] += 1
-            judge.deviation(None, dict(rep, what='aggregate raised %s' % res, pipeline=pretty(pipeline)),
-                            rank=nest.depth * 1000)
-            return
-        devs = _result_form_devs(case, res, pipeline)
-        try:
-            pairs = locate(res, cl)
-        except Exception as e:  # pylint: disable=broad-except
-            pairs = []
-            devs.append('the result has not the expected layout (%s): %r' % (type(e).__name__, res))
-        if not pairs and not devs:
-            devs.append('the written value does not appear in the result: %r' % (res,))
         stored = name == '$out'
-        for found, written in pairs:
-            exp = g.spec_patch(written) if stored else g.spec_read(written, tz)
-            if enc(found) != enc(exp):
-                devs.append('written %s: %s %s, the rule gives %s'
-                            % (enc(written), 'stored' if stored else 'returned', enc(found), enc(exp)))
-        if stored:
-            for x in g.dates_of(list(cl.db.outc._store._documents.values())):
-                if not g.is_normal(x):
-                    devs.append('$out stored %r' % (x,))
-        if devs:
-            judge.deviation(None, dict(rep, what='a datetime written in the pipeline at %s does not '
-                                       'come out as UTC milliseconds in the form of this client '
-                                       '(tz_aware=%s)' % (name, tz), deviations=devs[:6],
-                                       pipeline=pretty(pipeline), result=pretty(res)),
-                            rank=nest.depth * 1000 + len(before))
-            return
-        # an equivalent way of writing the same milliseconds: the same aggregation
-        pipeline2, _ = build(copy.deepcopy(case['L_same']), copy.deepcopy(case['L2_same']))
-        cl2 = _agg_setup(case) if stored else cl      # only $out writes
-        res2, handed2 = _aggregate(cl2, pipeline2)
-        same = (isinstance(res2, list) and enc(res2) == enc(res)
-                and (handed is None or enc(handed2) == enc(handed)))
-        if stored and same:
-            same = enc(list(cl2.db.outc._store._documents.values())) == enc(
-                list(cl.db.outc._store._documents.values()))
-        if not same:
-            judge.deviation(None, dict(rep, what='the same milliseconds written another way at %s '
-                                       'give another aggregation' % name,
-                                       pipeline=pretty(pipeline), other_pipeline=pretty(pipeline2),
-                                       result=pretty(res), other_result=pretty(res2)),
-                            rank=nest.depth * 1000 + len(before))
+        runs = {}
+        for tz in TZS:
+            pipeline, locate = build(copy.deepcopy(case['L']), copy.deepcopy(case['L2']))
+            before = _snapshot(pipeline)
+            cl = _agg_setup(case, tz)
+            run = runs[tz] = Run(cl, pipeline)
+            _check_plumbing(judge, pending, case, rep, tz, pipeline, before, run)
+            if run.error:
+                judge.errors['agg:' + run.error.split(':')[0]] += 1
+                judge.deviation(None, dict(rep, tz_aware=tz, what='aggregate raised %s' % run.error,
+                                           pipeline=pretty(pipeline)), rank=nest.depth * 1000)
+                continue
+            res = run.res
+            devs = _result_form_devs(case, tz, res, pipeline)
+            try:
+                pairs = locate(res, cl)
+            except Exception as e:  # pylint: disable=broad-except
+                pairs = []
+                devs.append('the result has not the expected layout (%s): %r'
+                            % (type(e).__name__, res))
+            if not pairs and not devs:
+                devs.append('the written value does not appear in the result: %r' % (res,))
+            for found, written in pairs:
+                exp = g.spec_patch(written) if stored else g.spec_read(written, tz)
+                if enc(found) != enc(exp):
+                    devs.append('written %s: %s %s, the rule gives %s'
+                                % (enc(written), 'stored' if stored else 'returned', enc(found),
+                                   enc(exp)))
+            if stored:
+                for x in g.dates_of(raw_docs(cl.db.outc)):
+                    if not g.is_normal(x):
+                        devs.append('$out stored %r' % (x,))
+            if devs:
+                judge.deviation(None, dict(rep, tz_aware=tz, what='a datetime written in the '
+                                           'pipeline at %s does not come out as UTC milliseconds '
+                                           'in the form of this client (tz_aware=%s)' % (name, tz),
+                                           deviations=devs[:6], pipeline=pretty(pipeline),
+                                           result=pretty(res)),
+                                rank=nest.depth * 1000 + len(before))
+                continue
+            if tz != bool(case['case_seed'] & 1):
+                continue
+            # an equivalent way of writing the same milliseconds: the same aggregation
+            pipeline2, _ = build(copy.deepcopy(case['L_same']), copy.deepcopy(case['L2_same']))
+            cl2 = _agg_setup(case, tz) if stored else cl      # only $out writes
+            run2 = Run(cl2, pipeline2)
+            same = (run2.error is None and enc(run2.res) == enc(res)
+                    and (run.handed is None or enc(run2.handed) == enc(run.handed)))
+            if stored and same:
+                same = enc(raw_docs(cl2.db.outc)) == enc(raw_docs(cl.db.outc))
+            if not same:
+                judge.deviation(None, dict(rep, tz_aware=tz, what='the same milliseconds written '
+                                           'another way at %s give another aggregation' % name,
+                                           pipeline=pretty(pipeline),
+                                           other_pipeline=pretty(pipeline2), result=pretty(res),
+                                           other_result=pretty(run2.res or run2.error)),
+                                rank=nest.depth * 1000 + len(before))
+        _check_both(judge, rep, runs, name)
     elif case['part'] == 'compare':
         build, expect = COMPARE_BY_NAME[name]
-        judge.seen('agg', '%s tz_aware=%s' % (name, tz), '', 1,
+        judge.seen('agg', name, '', 1,
                    case['same'] if g.nontrivial_date(case['same']) else case['date'],
                    enc([case['date'], case['same'], case['other']]))
         a = g.ms_of(case['date'])
-        cl = _agg_setup(case)                         # the comparisons write nothing
+        cls = dict((tz, _agg_setup(case, tz)) for tz in TZS)     # the comparisons write nothing
         for which, X in (('the same millisecond', case['same']),
                          ('another millisecond', case['other'])):
             rep = render_agg(case, operand=which, operand_datetime=pretty(X))
-            pipeline, observe = build(copy.deepcopy(X))
-            pipeline = g.subst_stored(pipeline, case['date'])
-            before = _snapshot(pipeline)
-            res, handed = _aggregate(cl, pipeline)
-            _check_handed(judge, case, rep, pipeline, before, handed, answer())
-            m_cmp = answer()
-            exp = expect(a, g.ms_of(X), tz)
-            if isinstance(res, str):
-                judge.errors['agg:' + res.split(':')[0]] += 1
-                got = res
-            else:
-                try:
-                    got = observe(res)
-                except Exception as e:  # pylint: disable=broad-except
-                    got = '!layout %s: %r' % (type(e).__name__, res)
-            if name == 'field op literal' and m_cmp is not None:
-                m = [x.strip() for x in m_cmp.split('|')]
-                py = [('!' + got.split(':')[0][1:]) if isinstance(got, str) else
-                      ('T' if x is True else 'F' if x is False else repr(x)) for x in
-                      (got if isinstance(got, list) else [got] * 6)]
-                spec = ['T' if x else 'F' for x in exp]
-                if m != py:
-                    if py == spec:
-                        ctx.notes.append('model stale but python follows the rule (compareOp): '
-                                         + before[:200])
-                    else:
-                        ctx.violation(dict(rep, what='correspondence: a field compared with a '
-                                           'written datetime differs from Expr.compareOp on '
-                                           'readDoc / aggPipeline', py=py, impl=m, spec=spec),
-                                      rank=len(before))
-                        continue
-                elif m != spec:
-                    raise RuntimeError('Lean compareOp and the Python oracle disagree (theorem '
-                                       'compare_field_with_literal contradicted?) %r' % (rep,))
-            if enc(got) != enc(exp):
-                judge.deviation(None, dict(rep, what='%s against a written datetime denoting %s '
-                                           'under tz_aware=%s: expected %r, got %r'
-                                           % (name, which, tz, pretty(exp), pretty(got)),
-                                           pipeline=pretty(pipeline)), rank=len(before))
-            elif not isinstance(res, str):
-                devs = _result_form_devs(case, res, pipeline, extra_ms=[g.ms_of(g.LO)])
-                if devs:
-                    judge.deviation(None, dict(rep, what='%s returns datetimes not in the form of '
-                                               'this client' % name, deviations=devs[:6],
-                                               result=pretty(res)), rank=len(before))
+            runs = {}
+            for tz in TZS:
+                pipeline, observe = build(copy.deepcopy(X))
+                pipeline = g.subst_stored(pipeline, case['date'])
+                before = _snapshot(pipeline)
+                run = runs[tz] = Run(cls[tz], pipeline)
+                _check_plumbing(judge, pending, case, rep, tz, pipeline, before, run)
+                exp = expect(a, g.ms_of(X), tz)
+                if run.error:
+                    judge.errors['agg:' + run.error.split(':')[0]] += 1
+                    got = run.error
+                else:
+                    try:
+                        got = observe(run.res)
+                    except Exception as e:  # pylint: disable=broad-except
+                        got = '!layout %s: %r' % (type(e).__name__, run.res)
+                if name == 'field op literal' and pending is not None:
+                    pending.add('cmpdate %s %s' % (enc(case['date']), enc(X)),
+                                _cmp_fields(got), ['T' if x else 'F' for x in exp],
+                                dict(rep, tz_aware=tz), 'a field compared with a written datetime '
+                                '~ Expr.compareOp on aggInput / aggPipeline')
+                if enc(got) != enc(exp):
+                    judge.deviation(None, dict(rep, tz_aware=tz, what='%s against a written '
+                                               'datetime denoting %s under tz_aware=%s: expected '
+                                               '%r, got %r' % (name, which, tz, pretty(exp),
+                                                               pretty(got)),
+                                               pipeline=pretty(pipeline)), rank=len(before))
+                elif not run.error:
+                    devs = _result_form_devs(case, tz, run.res, pipeline,
+                                             extra_ms=[g.ms_of(g.LO)])
+                    if devs:
+                        judge.deviation(None, dict(rep, tz_aware=tz, what='%s returns datetimes not '
+                                                   'in the form of this client' % name,
+                                                   deviations=devs[:6], result=pretty(run.res)),
+                                        rank=len(before))
+            _check_both(judge, rep, runs, name)
     else:
         build = COMPUTED_BY_NAME[name]
-        t = case['instant']
-        judge.seen('agg', '%s tz_aware=%s' % (name, tz), '', 1, None, repr(case['parts']))
+        judge.seen('agg', name, '', 1, case['X'] if name.startswith('literal') else case['date'],
+                   enc([case['date'], case['X'], case['t'], case['n']]))
         rep = render_agg(case)
-        pipeline, observe = build(case['parts'])
-        cl = _agg_setup(case)
-        res, _ = _aggregate(cl, pipeline)
-        if isinstance(res, str):
-            got = res
-        else:
-            got = observe(res)
-        if name.endswith('compared'):
-            exp = g.ms_of(t) < g.ms_of(case['date'])
-        else:
-            exp = g.spec_read(t, tz)
-        if enc(got) != enc(exp):
-            judge.deviation('aggregate_computed_raw',
-                            dict(rep, what='a datetime computed by $dateFromParts under tz_aware=%s: '
-                                 'the rule gives %s, got %s' % (tz, pretty(exp), pretty(got)),
-                                 pipeline=pretty(pipeline)), rank=1)
+        runs = {}
+        for tz in TZS:
+            pipeline, observe, expect = build(case)
+            before = _snapshot(pipeline)
+            cl = _agg_setup(case, tz)
+            run = runs[tz] = Run(cl, pipeline)
+            _check_plumbing(judge, pending, case, rep, tz, pipeline, before, run)
+            exp = expect(tz)
+            if run.error:
+                judge.errors['agg:' + run.error.split(':')[0]] += 1
+                got = run.error
+            elif observe is None:
+                got = raw_docs(cl.db.outc)
+            else:
+                try:
+                    got = observe(run.res)
+                except Exception as e:  # pylint: disable=broad-except
+                    got = '!layout %s: %r' % (type(e).__name__, run.res)
+            if name == 'field op $dateFromParts' and pending is not None:
+                pending.add('cmpdate %s %s' % (enc(case['date']), enc(case['t'])),
+                            _cmp_fields(got[:6] if isinstance(got, list) else got),
+                            ['T' if x else 'F' for x in exp[:6]], dict(rep, tz_aware=tz),
+                            'a field compared with a computed datetime ~ Expr.compareOp on '
+                            'aggInput and a naive datetime')
+            if enc(got) != enc(exp):
+                judge.deviation(None, dict(rep, tz_aware=tz, what='%s under tz_aware=%s: the rule '
+                                           'gives %r, got %r' % (name, tz, pretty(exp), pretty(got)),
+                                           pipeline=pretty(pipeline)), rank=len(before))
+            elif not run.error:
+                devs = [d for d in _result_form_devs(case, tz, run.res, pipeline)
+                        if 'neither stored nor written' not in d]
+                if devs:
+                    judge.deviation(None, dict(rep, tz_aware=tz, what='%s returns datetimes not in '
+                                               'the form of this client' % name,
+                                               deviations=devs[:6], result=pretty(run.res)),
+                                    rank=len(before))
+        _check_both(judge, rep, runs, name)
+
+
+def _cmp_fields(got):
+    """six comparison answers (or an error) as the driver prints them"""
+    if isinstance(got, str):
+        return ['!' + got.split(':')[0][1:]] * 6
+    if not isinstance(got, list) or len(got) != 6:
+        return [repr(got)] * 6
+    return ['T' if x is True else 'F' if x is False else repr(x) for x in got]
 
 
 # ================================================================================================
@@ -1485,7 +1568,7 @@ def run(ctx, proof, driver_ok):
     n_filter = ctx.n(50, 600)        # per entry point x form (two queries each)
     n_arrayq = ctx.n(500, 5000)      # per operator
     n_read = ctx.n(120, 1500)        # per read path x tz
-    n_agg = ctx.n(24, 400)           # per pipeline position x tz
+    n_agg = ctx.n(24, 400)           # per pipeline position (each case under both tz settings)
     run_fixed(ctx, judge, wire_ok)
     if wire_ok:
         done = 0
@@ -1528,13 +1611,11 @@ def run(ctx, proof, driver_ok):
         + [('computed', n) for n, _ in g.COMPUTED_POSITIONS]
     cases = []
     for part, name in agg_positions:
-        for tz in (False, True):
-            k = n_agg if part != 'computed' else max(10, n_agg // 4)
-            cases.extend(agg_case(rng.getrandbits(48), part, name, tz) for _ in range(k))
-    for i in range(0, len(cases), 4000):           # one driver call per 4000 cases
+        cases.extend(agg_case(rng.getrandbits(48), part, name) for _ in range(n_agg))
+    for i in range(0, len(cases), 2000):           # one driver call per 2000 cases
         if ctx.too_many():
             break
-        run_agg_batch(ctx, judge, cases[i:i + 4000], wire_ok)
+        run_agg_batch(ctx, judge, cases[i:i + 2000], wire_ok)
     for case in cases:
         _sample(judge, render_agg(case), case)
     return {
@@ -1549,6 +1630,7 @@ def run(ctx, proof, driver_ok):
         'read_paths': len(READ_PATHS),
         'pipeline_value_positions': len(g.VALUE_POSITIONS),
         'pipeline_compare_positions': len(g.COMPARE_POSITIONS),
+        'pipeline_computed_positions': len(g.COMPUTED_POSITIONS),
         'repaired_findings_rerun': sorted(e['id'] for e in common.load_known('C18')
                                           if e.get('status') == 'fixed'),
         'cases_by_path': dict(judge.by_path),
@@ -1560,17 +1642,13 @@ def run(ctx, proof, driver_ok):
 
 
 def run_agg_batch(ctx, judge, cases, wire_ok):
-    lines = []
-    spans = []
+    pending = Pending() if wire_ok else None
     for case in cases:
-        ls = agg_lines(case) if wire_ok else []
-        spans.append((len(lines), len(lines) + len(ls)))
-        lines.extend(ls)
-    out = wire.run_driver(lines) if lines else []
-    for case, (i, j) in zip(cases, spans):
         if ctx.too_many():
             break
-        run_agg(ctx, judge, case, out[i:j] if wire_ok else None)
+        run_agg(ctx, judge, case, pending)
+    if pending is not None:
+        pending.settle(ctx)
 
 
 def _sample(judge, rep, case):
@@ -1588,8 +1666,8 @@ def _rerun(ctx, judge, e):
         run_fixed(ctx, judge, os.path.exists(wire.DRIVER), only=e['finding'])
         return
     if kind == 'agg':
-        run_agg_batch(ctx, judge, [agg_case(e['case_seed'], e['part'], e['position'],
-                                            e['tz_aware'])], os.path.exists(wire.DRIVER))
+        run_agg_batch(ctx, judge, [agg_case(e['case_seed'], e['part'], e['position'])],
+                      os.path.exists(wire.DRIVER))
         return
     mk, runner, _ = KINDS[kind]
     if kind == 'write':
@@ -1728,14 +1806,24 @@ def run_fixed(ctx, judge, wire_ok, only=None):
             ctx.violation({'kind': 'regression', 'finding': e['id'], 'commit': e.get('commit'),
                            'what': 'the repaired finding %s is back: %s' % (e['id'], e['what']),
                            'witness': e['witness'], 'detail': back}, rank=0)
-        if e['id'] == 'aggregate_literal_raw' and wire_ok:
-            lit = wire.dec(e['witness']['wire_literal'])
-            pipeline = [{'$addFields': {'lit': {'$literal': lit}}}]
-            lines = wire.run_driver(['aggpipe %s %s' % (t, enc(pipeline)) for t in 'FT'])
-            for tz, line in zip((False, True), lines):
-                cl = mongomock.MongoClient(tz_aware=tz)
-                cl.db.c.insert_one({'_id': 1})
-                _, handed = _aggregate(cl, pipeline)
-                _check_handed(judge, {'tz': tz}, {'kind': 'regression', 'finding': e['id'],
-                                                  'tz_aware': tz}, pipeline, _snapshot(pipeline),
-                              handed, line)
+        if e['id'] in ('aggregate_literal_raw', 'aggregate_computed_raw'):
+            # the witness through the plumbing checks and the model correspondence
+            w = e['witness']
+            if e['id'] == 'aggregate_literal_raw':
+                lit = wire.dec(w['wire_literal'])
+                pipeline = [{'$addFields': {'lit': {'$literal': lit}}}]
+            else:
+                pipeline = [{'$project': {'x': {'$dateFromParts': w['parts']},
+                                          'lt': {'$lt': [{'$dateFromParts': w['parts']}, '$f']}}}]
+            case = {'date': wire.dec(w.get('wire_stored', 't0')), 'far': LATE}
+            pending = Pending() if wire_ok else None
+            rep = {'kind': 'regression', 'finding': e['id']}
+            runs = {}
+            for tz in TZS:
+                cl = _agg_setup(case, tz)
+                runs[tz] = Run(cl, pipeline)
+                _check_plumbing(judge, pending, case, rep, tz, pipeline, _snapshot(pipeline),
+                                runs[tz])
+            _check_both(judge, rep, runs, 'the witness of %s' % e['id'])
+            if pending is not None:
+                pending.settle(ctx)
